@@ -450,6 +450,8 @@ pub fn exec(inp: &[u128]) -> (Vec<u128>, String, String) {
         let mut sigs: Vec<&'static str> = Vec::new();
         let mut empty_batch_pending = false;
         let mut c08: Option<String> = None;
+        let mut c10: Option<String> = None;
+        let mut late_open: Option<u32> = None;
         let mut i = 0;
         while i + 1 < ops.len() {
             let code = ops[i];
@@ -633,6 +635,12 @@ pub fn exec(inp: &[u128]) -> (Vec<u128>, String, String) {
                                     empty_batch_pending = true;
                                 }
                             }
+                            // C10: an open request that arrives after the local listener was dropped has to be refused
+                            if let MultiplexMsg::OpenPort { client_port, .. } = &m {
+                                if w.listener.is_none() {
+                                    late_open = Some(*client_port);
+                                }
+                            }
                             w.inject(&m, *paylen as usize);
                         }
                     }
@@ -641,6 +649,17 @@ pub fn exec(inp: &[u128]) -> (Vec<u128>, String, String) {
             }
             w.settle().await;
             out.extend(w.observe());
+            if let Some(cp) = late_open.take() {
+                if w.status == 0 && c10.is_none() {
+                    let frames = w.net.a2b.log_from(0);
+                    let answered = group(&frames).iter().any(|m| matches!(&m.msg, MultiplexMsg::Rejected { client_port, .. } | MultiplexMsg::PortOpened { client_port, .. } if *client_port == cp));
+                    // (an endpoint that has already said Goodbye answers nothing any more)
+                    let leaving = group(&frames).iter().any(|m| matches!(&m.msg, MultiplexMsg::Goodbye));
+                    if !answered && !leaving {
+                        c10 = Some(format!("FAIL: C10 the open request from remote port {cp}, which arrived after the local listener had been dropped, is never answered"));
+                    }
+                }
+            }
             if empty_batch_pending {
                 empty_batch_pending = false;
                 if w.status == 0 && c08.is_none() {
@@ -668,6 +687,9 @@ pub fn exec(inp: &[u128]) -> (Vec<u128>, String, String) {
             oracle = c.clone();
         }
         if let Some(c) = &c08 {
+            oracle = c.clone();
+        }
+        if let Some(c) = &c10 {
             oracle = c.clone();
         }
         if w.panicked {
